@@ -1,4 +1,6 @@
 import PyPhysim.Proofs.C08
+import PyPhysim.Proofs.C08Matrix
+import PyPhysim.Proofs.C08Links
 
 /-!
 # C08 — multi-user channel matrix views stay coherent across any sequence of updates
@@ -28,6 +30,10 @@ open PyPhysim.Proto
 
 variable {α : Type} [Add α] [Mul α] [Zero α]
 
+/-- integers with `sqrt := id`, `conj := id`: the scalar structure of the concrete examples and of
+    the negative witnesses (staleness does not depend on what `sqrt` is) -/
+def fInt : Fns Int := ⟨id, id, fun x => decide (0 ≤ x)⟩
+
 /-! ## caches are never stale -/
 
 /-- Clause "after any sequence of … every view agrees" (cache part): after every
@@ -43,6 +49,53 @@ theorem coherent_history (F : Fns α) (isExt : Bool) (ops : List (Op α)) :
 theorem coherent_step (F : Fns α) (st : State α) (op : Op α) (h : Coherent F st) :
     Coherent F (step Cfg.fixed F st op).1 :=
   step_coherent F st op h
+
+/-! ## what "current" means: the mutators store their arguments -/
+
+/-- `set_pathloss(p[, pe])` makes `p` (with the interference columns `pe` appended
+    on the ExtInt class) the current path loss, `set_pathloss(None)` removes it;
+    the channel, the layout and the filters are untouched. -/
+theorem set_pathloss_sets_current (F : Fns α) (st : State α) (p pe : Mat α) :
+    let st' := (step Cfg.fixed F st (.setPL (some p) pe)).1
+    st'.pl = some (if st.isExt then List.zipWith (· ++ ·) p pe else p)
+    ∧ (step Cfg.fixed F st (.setPL none pe)).1.pl = none
+    ∧ st'.raw = st.raw ∧ st'.nr = st.nr ∧ st'.nt = st.nt ∧ st'.k = st.k ∧ st'.w = st.w := by
+  simp only [step, doSetPL, Cfg.fixed, if_true]
+  by_cases he : st.isExt = true
+  · simp [he]
+  · simp [he]
+
+/-- `randomize` / a valid `init_from_channel_matrix` make the drawn / given
+    matrix the current raw channel and the given layout (completed by the
+    interference "users" on the ExtInt class) the current layout; filters and
+    noise variance are kept; the stored per-link path loss is kept iff it still
+    has one entry per link (`K × _K`), otherwise dropped. -/
+theorem reinit_sets_current (F : Fns α) (st : State α) (M : Mat α) (nr nt : List Nat) (K : Nat)
+    (ntE : List Nat) :
+    let L := fullLayout st.isExt nr nt K ntE
+    let st' := (step Cfg.fixed F st (.randomize M nr nt K ntE)).1
+    (initCheck M L.1 L.2.1 L.2.2.1 = true →
+      step Cfg.fixed F st (.init M nr nt K ntE) = step Cfg.fixed F st (.randomize M nr nt K ntE))
+    ∧ st'.raw = M ∧ st'.nr = L.1 ∧ st'.nt = L.2.1 ∧ st'.k = L.2.2.1 ∧ st'.extK = L.2.2.2
+    ∧ st'.w = st.w ∧ st'.noiseVar = st.noiseVar
+    ∧ st'.pl = (match st.pl with
+        | none => none
+        | some p => if plFits p (if st.isExt then L.2.2.1 - L.2.2.2 else L.2.2.1) L.2.2.1 then some p
+                    else none) := by
+  intro L st'
+  refine ⟨fun h => init_eq_randomize F st M nr nt K ntE h, ?_⟩
+  exact install_fields { st with extK := L.2.2.2 } M L.1 L.2.1 L.2.2.1
+
+/-- `set_post_filter(w)` and `noise_var = v` store their argument and touch nothing else. -/
+theorem filter_and_noise_set_current (F : Fns α) (st : State α) (w : Option (List (Mat α)))
+    (v : α) (hv : F.nonneg v = true) :
+    (step Cfg.fixed F st (.setW w)).1.w = w
+    ∧ specBigW (step Cfg.fixed F st (.setW w)).1 = w.map blockDiag
+    ∧ specBigH F (step Cfg.fixed F st (.setW w)).1 = specBigH F st
+    ∧ (step Cfg.fixed F st (.setNoise (some v))).1.noiseVar = some v
+    ∧ (step Cfg.fixed F st (.setNoise none)).1.noiseVar = none
+    ∧ specBigH F (step Cfg.fixed F st (.setNoise (some v))).1 = specBigH F st := by
+  simp [step, doSetNoise, hv, specBigW, specBigH]
 
 /-! ## what the reads return -/
 
@@ -140,6 +193,29 @@ theorem hk_is_rowblock_of_bigH (F : Fns α) (isExt : Bool) (ops : List (Op α)) 
     rw [out_readHkl F st k l h]
     exact views_agree F st hw hk hl
 
+/-- The user blocks of the ExtInt-only views agree with the others: block (k,l)
+    of `H_no_ext_int` is `get_Hkl(k,l)`, and the (k,l) sub-block of
+    `big_H_no_ext_int` is the (k,l) sub-block of `big_H` (hence, by
+    `hkl_is_block_of_bigH`, again `get_Hkl(k,l)`), for all users `k, l`. -/
+theorem extint_user_views_agree (F : Fns α) (ops : List (Op α)) (hv : Valid F true ops) {k l : Nat} :
+    let st := reach F true ops
+    k < st.userK → l < st.userK →
+    ∃ M N H, (step Cfg.fixed F st .readBigH).2 = .mat M
+      ∧ (step Cfg.fixed F st .readBigHNoExt).2 = .mat N
+      ∧ (step Cfg.fixed F st .readHNoExt).2 = .mom H
+      ∧ block N st.nr st.nt k l = block M st.nr st.nt k l
+      ∧ getD2 H k l = (step Cfg.fixed F st (.readHkl k l)).2
+      ∧ getD2 H k l = .mat (block M st.nr st.nt k l) := by
+  intro st hk hl
+  have h := reach_coherent F true ops
+  have hw := reach_wellShaped F true ops hv
+  have he : st.isExt = true := reach_isExt F true ops
+  have hl' : l < st.k := Nat.lt_of_lt_of_le hl (userK_le st)
+  refine ⟨specBigH F st, _, _, out_readBigH F st h, out_readBigHNoExt F st h he, out_readHNoExt F st h he,
+    block_takeCols _ st hw hl, ?_, ?_⟩
+  · rw [getD2_map_take _ hl, out_readHkl F st k l h]
+  · rw [getD2_map_take _ hl]; exact views_agree F st hw hk hl'
+
 /-- The documented argument shapes are themselves an invariant of well-shaped
     histories (so the hypotheses of the three theorems above never become
     unsatisfiable along a history): layout lists have `_K` entries and the
@@ -172,6 +248,67 @@ theorem corrupt_spec (F : Fns α) (isExt : Bool) (ops : List (Op α))
   intro st hn
   exact out_corrupt F st x xe noise (reach_coherent F isExt ops) hn
 
+/-- First-principles form of "received as the current global matrix times the
+    stacked transmit data" (scalars with the additive monoid laws): after every
+    well-shaped history whose last channel matrix is rectangular, receiver `k`'s
+    rows of `big_H · vstack(xs)` (what `corrupt_data` returns for `k` before
+    noise and filter, `xs` = user data followed by the interference data) are,
+    row by row, the SUM OVER THE TRANSMITTERS `l` of (that row of the block
+    `get_Hkl(k,l)` = `seg Nt ρ l` of the row `ρ` of `get_Hk(k)`) times `xs[l]` —
+    every link contributes through its own block, scaled by its own current
+    path loss (`hkl_is_scaled_raw_block`). -/
+theorem received_is_sum_over_links {R : Type} [AddMonoid R] [Mul R] (F : Fns R) (isExt : Bool)
+    (ops : List (Op R)) (hv : Valid F isExt ops) (xs : List (Mat R)) {c : Nat} (k : Nat) :
+    let st := reach F isExt ops
+    (∀ r ∈ st.raw, r.length = st.nt.sum) →
+    xs.length = st.nt.length → xs ≠ [] →
+    (∀ (l : Nat) (x : Mat R), xs[l]? = some x → st.nt[l]? = some x.length ∧ x ≠ [] ∧ IsMat x c) →
+    seg st.nr (matMul (specBigH F st) xs.flatten) k
+      = (rowBlock (specBigH F st) st.nr k).map fun ρ =>
+          vsum (List.zipWith rowMul ((List.range st.nt.length).map fun l => seg st.nt ρ l) xs) := by
+  intro st hraw hlen hne hx
+  exact received_rows_sum_over_links F st (reach_wellShaped F isExt ops hv) hraw xs hlen hne hx k
+
+/-- the two sides of `received_is_sum_over_links` on a concrete 2-user channel with path loss -/
+example :
+    let st := reach fInt false [.init [[1, 2, 3], [4, 5, 6], [7, 8, 9]] [1, 2] [2, 1] 2 [],
+                                 .setPL (some [[1, 2], [3, 1]]) []]
+    let xs : List (Mat Int) := [[[1, 0], [0, 1]], [[2, 2]]]
+    seg st.nr (matMul (specBigH fInt st) xs.flatten) 1 = [[24, 27], [39, 42]]
+    ∧ ((rowBlock (specBigH fInt st) st.nr 1).map fun ρ =>
+        vsum (List.zipWith rowMul ((List.range st.nt.length).map fun l => seg st.nt ρ l) xs))
+      = [[24, 27], [39, 42]] := by
+  decide
+
+/-! ## the matrix operations of the model are the mathematical ones -/
+
+/-- `matMul` (the model of `np.dot`, used for `big_H · data`) is the matrix
+    product: on the row lists of Mathlib matrices over any semiring it returns
+    the row lists of `A * B`. -/
+theorem matMul_is_matrix_product {R : Type} [Semiring R] {m n p : Nat}
+    (A : Matrix (Fin m) (Fin (n + 1)) R) (B : Matrix (Fin (n + 1)) (Fin p) R) :
+    matMul (toLists A) (toLists B) = toLists (A * B) :=
+  matMul_toLists A B
+
+/-- `conjTMul` (the model of `np.dot(big_W.conjugate().T, ·)`) is the product with
+    the conjugate transpose, and `matAdd` (the model of `output += noise`) is the
+    matrix sum. -/
+theorem conjTMul_is_conjTranspose_product {R : Type} [Semiring R] (conj : R → R) {n q p : Nat}
+    (W : Matrix (Fin (n + 1)) (Fin q) R) (Y Z : Matrix (Fin (n + 1)) (Fin p) R) :
+    conjTMul conj (toLists W) (toLists Y) = toLists ((W.map conj).transpose * Y)
+    ∧ matAdd (toLists Y) (toLists Z) = toLists (Y + Z) :=
+  ⟨conjTMul_toLists conj W Y, matAdd_toLists Y Z⟩
+
+omit [Add α] [Mul α] in
+/-- `blockDiag` (the model of `scipy.linalg.block_diag`, the cached `big_W`) is
+    block diagonal: cut at the filters' own row and column counts, its (k,l)
+    block is the k-th filter when `k = l` and zero otherwise. -/
+theorem blockDiag_is_block_diagonal (ws : List (Mat α)) (hrect : ∀ w ∈ ws, ∀ r ∈ w, r.length = cols w)
+    {k l : Nat} {w : Mat α} {cl : Nat} (hk : ws[k]? = some w) (hl : (ws.map cols)[l]? = some cl) :
+    block (blockDiag ws) (ws.map List.length) (ws.map cols) k l
+      = if k = l then w else List.replicate w.length (List.replicate cl 0) :=
+  block_blockDiag ws hrect hk hl
+
 /-! ## rejected arguments -/
 
 /-- A negative noise variance is rejected (`AssertionError`) and nothing changes. -/
@@ -199,9 +336,6 @@ theorem hkl_out_of_range (F : Fns α) (isExt : Bool) (ops : List (Op α)) (hv : 
   exact getD2_out_of_range F st (reach_wellShaped F isExt ops hv) hk
 
 /-! ## the design-round code violated the property (negative witnesses on `Cfg.orig`) -/
-
-/-- integers, `sqrt := id`: enough to exhibit staleness -/
-def fInt : Fns Int := ⟨id, id, fun x => decide (0 ≤ x)⟩
 
 /-- finding (4): `MultiUserChannelMatrixExtInt.set_pathloss` did not reset
     `_big_H_with_pathloss` -/
